@@ -228,6 +228,13 @@ func run(ctx *core.Ctx) error {
 		return err
 	}
 
+	if ctx.Thorough() {
+		if _, err := ctx.MustHold(core.TLCOpts{Dir: "font", Module: "MC_Charcode", Cfg: "MC_Charcode_t4.cfg", Workers: 16,
+			Constants: "B=2, four-byte ranges; see MC_Charcode_t4.cfg", Timeout: ctx.Dur(5, 25)}); err != nil {
+			return err
+		}
+	}
+
 	// 2. P-C: case table from the reference semantics, executed on the real codec
 	cases, err := generate(ctx)
 	if err != nil {
@@ -368,10 +375,17 @@ func report(ctx *core.Ctx, r record) {
 }
 
 func generate(ctx *core.Ctx) ([]genCase, error) {
-	maxLen, shards := 2, 1
-	if ctx.Thorough() {
-		maxLen, shards = 3, 16
+	all, err := generateB(ctx, 3, ctx.Pick(2, 3), ctx.Pick(1, 16))
+	if err != nil || !ctx.Thorough() {
+		return all, err
 	}
+	// four-byte ranges over two abstract bytes (concretised through the first
+	// two letters of the 3-letter maps)
+	more, err := generateB(ctx, 2, 4, 8)
+	return append(all, more...), err
+}
+
+func generateB(ctx *core.Ctx, b, maxLen, shards int) ([]genCase, error) {
 	var all []genCase
 	var mu sync.Mutex
 	var wg sync.WaitGroup
@@ -380,7 +394,7 @@ func generate(ctx *core.Ctx) ([]genCase, error) {
 		wg.Add(1)
 		go func(sh int) {
 			defer wg.Done()
-			cfg := fmt.Sprintf("INIT Init\nNEXT Next\nCONSTANTS B = 3\n WITH_GAPS = TRUE\n MaxLen = %d\n MaxRanges = 3\n Lens3 = {1, 2}\n Shard = %d\n Shards = %d\n", maxLen, sh, shards)
+			cfg := fmt.Sprintf("INIT Init\nNEXT Next\nCONSTANTS B = %d\n WITH_GAPS = TRUE\n MaxLen = %d\n MaxRanges = 3\n Lens3 = {1, 2}\n Shard = %d\n Shards = %d\n", b, maxLen, sh, shards)
 			cs, _, err := core.GenCases[genCase](ctx, core.TLCOpts{Dir: "font", Module: "Gen_Charcode", CfgText: cfg, Mode: "evaluate",
 				XssMB: 512, Timeout: ctx.Dur(5, 25), Quiet: sh > 0})
 			mu.Lock()
